@@ -27,6 +27,7 @@ func init() {
 			"{omitted,undefined,null,NaN,-Inf,-1,-0.5,0,0.5,1,2,3,4,+Inf,1e19,-1e19,\"1\",true}; receivers: primitive, String object, object with toString, array, 12, true, undefined, null; " +
 			"order family: receiver and arguments are objects whose toString/valueOf log, draw from a shared counter and behave in 5 ways (primitive, fallback, throw, object-then-throw, never primitive), every argument count, checked against the replay of the 15.5.4.x step order (log, result, surfacing exception); " +
 			"wrappers family: every method probed on receivers whose ToString was customised (String/Number/Boolean objects and primitives with own or prototype toString/valueOf replaced, non-callable or returning objects; arrays with replaced join/toString; plain objects), fresh runtime per case, expected = [[DefaultValue]] 8.12.8 with the log of user functions called; " +
+			"history family: every operation sequence of depth <= 2 over {s[n]=v, three defineProperty shapes, delete s[n]} x n in {1, 3, 5, \"01\", \"-0\", \"4294967295\", length, expando} on a fresh new String(\"abc\"), then every observer (get, in, hasOwnProperty, propertyIsEnumerable, descriptor, keys, getOwnPropertyNames, for-in, charAt, String, valueOf, length) against ref/str16.StrObj (15.5.5.2 + 8.12); " +
 			"each (method, receiver route, representation, string, argument tuple) is one case; a case is non-trivial when the expected result is not the trivial one of its method " +
 			"(empty string / -1 / NaN / the unchanged receiver / TypeError).",
 		Families: []engine.Family{
@@ -45,6 +46,7 @@ func init() {
 			{Name: "repr", Run: runRepr},
 			{Name: "order", Run: runOrder},
 			{Name: "wrappers", Run: runWrappers},
+			{Name: "history", Run: runHistory},
 			{Name: "len4", Run: runLen4, ThoroughOnly: true},
 		},
 		Assumptions: []string{
